@@ -6,6 +6,8 @@ package main
 // Oracle: gauge book + per-epoch step oracle computed from the observed pre-epoch state.
 
 import (
+	clmodel "github.com/osmosis-labs/osmosis/v31/x/concentrated-liquidity/model"
+	cltypes "github.com/osmosis-labs/osmosis/v31/x/concentrated-liquidity/types"
 	"fmt"
 	"math/big"
 	"sort"
@@ -65,6 +67,18 @@ func runC09(c *vk.Ctx) {
 		ch.App.ProtoRevKeeper.SetPoolForDenomPair(ch.Ctx, "uosmo", "rwd", pricePool)
 		routeOn := true
 
+		// every third history also has a concentrated pool that receives external (no-lock) gauges; for those only the
+		// conservation clauses are checked (what they pay goes to the pool's incentive records, not to locks)
+		clPool := uint64(0)
+		noLock := map[uint64]sdk.Coins{} // gauge id -> deposited
+		if i%3 == 0 {
+			cm := clmodel.NewMsgCreateConcentratedPool(funder.Addr, "rwd", "uosmo", 100, osmomath.MustNewDecFromStr("0.001"))
+			if res := ch.Exec(&cm); res.OK() {
+				clPool = ch.App.PoolManagerKeeper.GetNextPoolId(ch.Ctx) - 1
+				ch.Exec(&cltypes.MsgCreatePosition{PoolId: clPool, Sender: funder.Addr.String(), LowerTick: cltypes.MinInitializedTick, UpperTick: cltypes.MaxTick,
+					TokensProvided: sdk.NewCoins(sdk.NewCoin("rwd", sdkmath.NewIntWithDecimal(1, 12)), sdk.NewCoin("uosmo", sdkmath.NewIntWithDecimal(1, 12))), TokenMinAmount0: sdkmath.ZeroInt(), TokenMinAmount1: sdkmath.ZeroInt()})
+			}
+		}
 		gauges := map[uint64]*c09Gauge{}
 		sigBase := func() map[string]any { return map[string]any{} }
 		rewardDenoms := []string{"uosmo", "rwd"}
@@ -82,7 +96,29 @@ func runC09(c *vk.Ctx) {
 			for k := 0; k < n; k++ {
 				oi := r.Intn(len(owners))
 				o := owners[oi]
-				switch r.Intn(10) {
+				opk := r.Intn(10)
+				if clPool != 0 && r.Intn(8) == 0 {
+					opk = 10
+				}
+				switch opk {
+				case 10: // an external gauge on the concentrated pool: one or two reward denoms, amounts from dust to large
+					coins := sdk.NewCoins(sdk.NewCoin("uosmo", sdkmath.NewIntFromBigInt(r.BigMag(0, 18))))
+					if r.Bool() {
+						coins = coins.Add(sdk.NewCoin("rwd", sdkmath.NewIntFromBigInt(r.BigMag(0, 9))))
+					}
+					perp := r.Intn(4) == 0
+					n := uint64(1 + r.Intn(6))
+					if perp {
+						n = 1
+					}
+					upt := []time.Duration{time.Nanosecond, time.Minute, time.Hour}[r.Intn(3)]
+					gm := &incentivestypes.MsgCreateGauge{IsPerpetual: perp, Owner: funder.Addr.String(), DistributeTo: lockuptypes.QueryCondition{LockQueryType: lockuptypes.NoLock, Duration: upt}, Coins: coins, StartTime: ch.Ctx.BlockTime(), NumEpochsPaidOver: n, PoolId: clPool}
+					c.Logf("CreateGauge(no-lock on pool %d, perpetual=%v, %s, uptime %s, epochs %d)", clPool, perp, coins, upt, n)
+					if res := ch.Exec(gm); res.OK() {
+						noLock[ik.GetLastGaugeID(ch.Ctx)] = coins
+					} else {
+						c.Logf("  rejected: %s", trunc(res.ErrString(), 160))
+					}
 				case 0, 1, 2: // lock / top up
 					d := lockDenoms[r.Intn(2)]
 					du := durs[r.Intn(len(durs))]
@@ -413,6 +449,31 @@ func runC09(c *vk.Ctx) {
 				if !isFin {
 					need = need.Add(g.Coins.Sub(g.DistributedCoins...)...)
 				}
+			}
+			nlIDs := make([]uint64, 0, len(noLock))
+			for id := range noLock {
+				nlIDs = append(nlIDs, id)
+			}
+			sort.Slice(nlIDs, func(a, b int) bool { return nlIDs[a] < nlIDs[b] })
+			for _, id := range nlIDs {
+				g, err := ik.GetGaugeByID(ctx, id)
+				if err != nil {
+					c.Violate("C09.gauge_query", sigBase(), "no-lock gauge %d: %v", id, err)
+					return
+				}
+				sg := map[string]any{"no_lock": true}
+				if !g.Coins.IsAllGTE(g.DistributedCoins) || !noLock[id].Equal(g.Coins) {
+					c.Violate("C09.overpaid", sg, "no-lock gauge %d: deposited %s, recorded coins %s, distributed %s", id, noLock[id], g.Coins, g.DistributedCoins)
+					return
+				}
+				if !g.IsPerpetual && g.FilledEpochs > g.NumEpochsPaidOver {
+					c.Violate("C09.finish_schedule", sg, "no-lock gauge %d has paid in %d epochs, it was created for %d", id, g.FilledEpochs, g.NumEpochsPaidOver)
+					return
+				}
+				if _, isFin := fin[id]; !isFin {
+					need = need.Add(g.Coins.Sub(g.DistributedCoins...)...)
+				}
+				c.Class("no-lock-gauge|filled%d|perpetual%v", bucket(int(g.FilledEpochs)), g.IsPerpetual)
 			}
 			for id, d := range finishedBefore {
 				if g, ok := fin[id]; ok && !g.DistributedCoins.Equal(d) {
